@@ -271,9 +271,10 @@ func quoteAll(xs []string) string {
 
 // C16: egress policy on every delivery and redirect hop.
 func C16(c *vlib.Ctx) {
-	c.Rule("generated egress policies (https_only/redirects/dns_rebind_protection x allow/deny lists of hosts, wildcards, IPs, CIDRs) are compiled by config.Compile and mapped exactly as `run` does; the real HTTPDeliverer runs with a recording RoundTripper and a scripted resolver against generated URLs (schemes, userinfo, ports, case, trailing dots, IP literals on both sides of every class boundary incl. IPv4-mapped, non-canonical numeric hosts) and redirect chains up to 12 hops. Every URL that reaches the transport must be allowed by an independent evaluator written from the statement; a policy denial must be ErrPolicyDenied with no transport call for that hop; through the PushDispatcher a denial must be dead-lettered policy_denied without a nack. distinct_nontrivial = distinct (first denying clause or 'allowed', hop position, redirects on/off) classes.")
+	c.Rule("generated egress policies (https_only/redirects/dns_rebind_protection x allow/deny lists of hosts, wildcards, IPs, CIDRs) are compiled by config.Compile and mapped exactly as `run` does; the real HTTPDeliverer runs with a recording RoundTripper and a scripted resolver against generated URLs (schemes, userinfo, ports, case, trailing dots, IP literals on both sides of every class boundary incl. IPv4-mapped, non-canonical numeric hosts) and redirect chains up to 12 hops. Every URL that reaches the transport must be allowed by an independent evaluator written from the statement; a policy denial must be ErrPolicyDenied with no transport call for that hop; through the PushDispatcher a denial must be dead-lettered policy_denied without a nack. Reload part: the production wiring with its dispatcher is started on a file, one egress setting is edited (host rule gains / loses its '*.' prefix, rules added / removed / renamed / turned into a CIDR) and the process reloads; pushes to an apex host, a sub-domain, a deeper sub-domain and an unrelated host must then end (delivered / dead-lettered policy_denied) exactly as after a fresh start of the configuration the process reports as running. distinct_nontrivial = distinct (first denying clause or 'allowed', hop position, redirects on/off) classes.")
 	c.Assume("the resolver answer is the one the policy check saw (re-resolution by the dialer is outside the statement)")
 	c.Assume("IPv4-mapped IPv6 CIDR rules are not generated (undocumented); IPv4-mapped URL hosts against IPv4 rules are")
+	c16ReloadEdits(c)
 	n := c.N(24000, 6000000)
 	sent, denied := 0, 0
 	for i := 0; i < n; i++ {
